@@ -160,12 +160,13 @@ _TIE_TEXT = {
  'C01': "render.Sizer.Check and Menu.reset",
  'C02': "State.Next/Previous/Sides/Top/Same, Menu.reset, Sizer.Check",
  'C03': "State.Previous (IndexError on page 0), Next, Top, Same",
- 'C04': "State.Next/Previous/Same/Top/Sides",
+ 'C04': "State.Next/Previous/Same/Top/Sides and Down/Up (panics included)",
+ 'C08': "State.Down/Up (the regenerated definitions make every run-time panic explicit: only Down's two explicit ones exist)",
  'C05': "Cache.checkCapacity, Levels",
  'C06': "state.IsWriteableFlag, toByteSize",
  'C09': "Cache.checkCapacity, Levels",
  'C10': "DbBase.Safe, CheckPut, SetLock (defaultLock inlined)",
- 'C11': "db.ToDbKey, DbBase.ToSessionKey",
+ 'C11': "db.ToDbKey, DbBase.ToSessionKey, db.FromDbKey (never panics), DbBase.FromSessionKey",
 }
 for _p, _t in _TIE_TEXT.items():
     if _p in META:
